@@ -76,7 +76,23 @@ def serializer_obligations(ctx, facts, rule=None, scope="all"):
     site = fn_site(facts, key)
     # --- SORT-TAINT in the serialiser
     iters = [(bb, t) for bb, t in body.calls() if callee_name(t["callee"]) in HM_ITER]
-    ctx.ob(R("SORT-TAINT"), "serialiser: exactly one HashMap iteration", len(iters) == 1, fn=key, site=site, detail=str([callee_name(t["callee"]) for _, t in iters]))
+    # an iteration that only feeds a quantifier over a pure predicate (`values().all(valid)`) yields the same answer in
+    # every order: it cannot taint the text
+    summ0 = boolsum.Summarizer(facts)
+    ORDER_FREE = ("std::iter::Iterator::all", "std::iter::Iterator::any")
+    prechecks = []
+    for (ibb, it_) in list(iters):
+        users = [(ub, ut) for ub, ut in body.calls() if ub != ibb and any(("@%d" % ibb) in mark_sites(norm(body.resolve_operand(a))) for a in ut["args"])]
+        if len(users) == 1 and callee_name(users[0][1]["callee"]) in ORDER_FREE and len(users[0][1]["args"]) == 2:
+            clo = norm(body.resolve_operand(users[0][1]["args"][1]))
+            if clo[0] == "closure" and clo[1] in facts.bodies:
+                try:
+                    f_ = summ0.summary(clo[1])
+                except AnchorError:
+                    continue
+                iters.remove((ibb, it_))
+                prechecks.append({"bb": users[0][0], "iter": callee_name(it_["callee"]), "recv": norm(body.resolve_operand(it_["args"][0])), "quant": callee_name(users[0][1]["callee"]).split("::")[-1], "formula": f_, "closure": clo[1]})
+    ctx.ob(R("SORT-TAINT"), "serialiser: exactly one HashMap iteration whose order can reach the text", len(iters) == 1, fn=key, site=site, detail=str([callee_name(t["callee"]) for _, t in iters]))
     sorts = [e for e in bs["effects"] if "sort" in e["path"].split("::")[-1]]
     loops = bs["loops"]
     if len(iters) == 1 and len(sorts) == 1 and len(loops) == 1:
@@ -285,14 +301,62 @@ def serializer_obligations(ctx, facts, rule=None, scope="all"):
                 return True
         return False
 
+    def prevalidated(e):
+        """`if !self.algorithms.values().all(valid) { return Err(..) }` before the loop, with valid(s) = even length and hex
+        digits only: every entry the loop then meets (same map, not modified in between: it is moved into the sorted
+        Vec) satisfies both guards"""
+        out = set()
+        for pc in prechecks:
+            if pc["quant"] != "all" or pc["iter"] != "std::collections::HashMap::<K, V, S, A>::values" or models.field_path(pc["recv"]) != "algorithms":
+                continue
+            holds = any(a[0] == "pred" and a[1] == "std::iter::Iterator::all" and a[-1] is True and len(a[2]) == 2 and a[2][1][0] == "closure" and a[2][1][1] == pc["closure"] for a in e["atoms"])
+            if not holds:
+                continue
+            f_ = pc["formula"]
+            conj = list(f_[1]) if f_[0] == "and" else [f_]
+            for c_ in conj:
+                if c_[0] == "p" and c_[1] == "binop:Eq" and c_[2][1] == ("const", 0) and c_[2][0][0] == "binop" and c_[2][0][1] == "Rem" and c_[2][0][3] == ("const", 2) and c_[2][0][2][0] == "call" and c_[2][0][2][1].split("::")[-1] == "len" and strip(c_[2][0][2][2][0]) == ("arg", 2):
+                    out.add("even")
+                if c_[0] == "all" and strip(c_[1]) == ("arg", 2) and boolsum.charset(c_[2], facts) == HEX:
+                    out.add("allhex")
+        return out
+
+    # `let start = v.len(); v.push_str(hex); v[start..].make_ascii_lowercase();`  ==  v.extend(hex.chars().map(to_ascii_lowercase)):
+    # the three effects are fused into one lower-case emit when the slice starts at the length taken right before the push
+    fused = []
+    for m_ in [e for e in emits if e["path"].endswith("::make_ascii_lowercase")]:
+        tgt = strip_conv(m_["args"][0])
+        while tgt[0] == "call" and len(tgt[2]) == 1 and tgt[1].endswith("deref_mut"):
+            tgt = tgt[2][0]
+        if not (tgt[0] == "call" and tgt[1].endswith("IndexMut<I>>::index_mut") and len(tgt[2]) == 2):
+            continue
+        i_ = [e for e in emits if e["bb"] == tgt[3] and e["path"].endswith("::index_mut")]
+        rg = tgt[2][1]
+        if len(i_) != 1 or not (rg[0] == "agg" and rg[1][0] == "adt" and rg[1][1] == "std::ops::RangeFrom" and len(rg[2]) == 1):
+            continue
+        ln = rg[2][0]
+        if not (ln[0] == "call" and ln[1].split("::")[-1] == "len" and len(ln[2]) == 1 and ln[2][0][0] == "var" and ln[2][0][1] == accn):
+            continue
+        lbb = ln[3]
+        between = [e for e in emits if e is not m_ and e is not i_[0] and e["bb"] != lbb and body.dominates(lbb, e["bb"]) and body.dominates(e["bb"], i_[0]["bb"])]
+        if len(between) == 1 and classify(between[0]) == ("hex-as-given",) and not (body.loops().get(h, set()) and lbb not in body.loops().get(h, set())):
+            fused.append((between[0], i_[0], m_))
+    for x_, i__, m_ in fused:
+        if sorted(show_canon(c) for c in x_["catoms"]) == sorted(show_canon(c) for c in i__["catoms"]) == sorted(show_canon(c) for c in m_["catoms"]):
+            emits = [e for e in emits if e is not i__ and e is not m_]
+            x_["_fused"] = ("hex-lower",)
+
     variants = {}
     for e in emits:
         kinds = [guard_kind(c, accn) for c in e["catoms"]]
+        pv = prevalidated(e)
+        if pv:
+            kinds = [k_ for k_ in kinds if not k_.startswith("other:pred(std::iter::Iterator::all")] + sorted(pv)
         if classify(e) == ("lit", ",") and "acc-nonempty" not in kinds and e["bb"] in body.loops().get(h, set()) and first_flag_guard(e["bb"]):
             kinds.append("acc-nonempty")
         vs = [k.split(":")[1] for k in kinds if k.startswith("variant:") and k != "variant:any"]
         e["_kinds"] = kinds
-        e["_cls"] = classify(e)
+        e["_cls"] = e.get("_fused") or classify(e)
         variants.setdefault(vs[0] if vs else None, []).append(e)
     common = variants.pop(None, [])
     names = sorted(variants) or [None]
@@ -332,6 +396,8 @@ def serializer_obligations(ctx, facts, rule=None, scope="all"):
     for gb, c in set((gb, c) for e in emits for gb, c in e["gatoms"]):
         if c[0] in ("next",) or (c[0] in ("is", "isin") and c[-1] in ("Borrowed", "Owned")):
             continue
+        if gb not in body.loops().get(h, set()):
+            continue   # a test made before the loop decides about the whole value, not about one entry
         for (lab, tg) in body.edges(gb):
             # an edge "skips an entry" if the next iteration can be reached from it without passing any emit of the entry's
             # own text (the separator alone does not count: not emitting ',' before the first entry is the point)
@@ -491,15 +557,33 @@ def rule_delegation(ctx):
         # explicit match: None -> Ok(None); Some(v) -> v.decode() handed on / wrapped in Some
         tb = facts.body(k)
         gv = [bb for bb, tt in tb.calls() if callee_name(tt["callee"]) == rl.get("get_value")]
+        direct = False
+        if not gv:
+            # the lookup written out: self.algorithms.get(alg), the stored text handed to from_hex as it is
+            gv = [bb for bb, tt in tb.calls() if callee_name(tt["callee"]).endswith("HashMap::<K, V, S, A>::get") and models.field_path(norm(tb.resolve_operand(tt["args"][0]))) == "algorithms"]
+            direct = True
         decs = [callee_name(tt["callee"]) for _, tt in tb.calls() if callee_name(tt["callee"]).endswith("ChecksumValue::<'a>::decode")]
-        if len(gv) == 1 and len(decs) == 1 and not tb.back_edges() and [norm(tb.resolve_operand(a)) for a in tb.term(gv[0])["args"]] == [("arg", 1), ("arg", 2)]:
+        hexes = [bb for bb, tt in tb.calls() if callee_name(tt["callee"]) == "hex::FromHex::from_hex"]
+        lookup_args = [norm(tb.resolve_operand(a)) for a in tb.term(gv[0])["args"]] if len(gv) == 1 else []
+        args_ok = (lookup_args == [("arg", 1), ("arg", 2)]) if not direct else (len(lookup_args) == 2 and lookup_args[1] == ("arg", 2))
+        if len(gv) == 1 and (len(decs) == 1 or (not decs and len(hexes) == 1)) and not tb.back_edges() and args_ok:
             src = norm(tb.call_term(gv[0]))
+            LOOK = callee_name(tb.term(gv[0])["callee"])
             good, seen_none, seen_some = True, False, False
+
+            def dec_of_some(x):
+                if decs:
+                    return x[0] == "call" and x[1] == decs[0] and x[2] == (("some", src),)
+                if x[0] == "call" and x[1] == "hex::FromHex::from_hex" and len(x[2]) == 1:
+                    y = strip(x[2][0])
+                    if not direct and y[0] == "field" and y[2] == "0":
+                        y = strip(y[1])   # the text inside the ChecksumValue wrapper
+                    return y == ("some", src)
+                return False
             for bb, n in models.returns(tb):
                 cls = models.classify_return(n)
                 atoms = [models.canon_atom(a) for _, a in atoms_at(tb, bb)]
-                st_ = [a[-1] for a in atoms if a[0] == "callres" and a[1] == rl.get("get_value")]
-                dec_of_some = lambda x: x[0] == "call" and x[1] == decs[0] and x[2] == (("some", src),)  # noqa: E731
+                st_ = [a[-1] for a in atoms if a[0] == "callres" and a[1] == LOOK]
                 if st_ == ["None"] and cls[0] == "ok" and cls[1][0] == "agg" and cls[1][1][2] == "None":
                     seen_none = True
                 elif st_ and st_[0] == "Some" and cls[0] == "propagate" and dec_of_some(cls[1]):
@@ -511,7 +595,7 @@ def rule_delegation(ctx):
                 else:
                     good = False
             ok = good and seen_none and seen_some
-            if ok:
+            if ok and decs:
                 dt = norm(facts.body(decs[0]).resolve_local(0))
                 ok = dt[0] == "call" and dt[1] == "hex::FromHex::from_hex" and models.field_path(dt[2][0]) == "0"
     ctx.ob("DELEGATE", "get(alg) = get_value(alg).map(|v| from_hex(v.raw)).transpose()", ok, fn=k, site=fn_site(facts, k), detail=nshow(t)[:160])
